@@ -1,4 +1,5 @@
 import SlipVerif.Lemmas.LoadForm
+import SlipVerif.Lemmas.SnapshotOrder
 import Mathlib.Data.List.Perm.Subperm
 import Mathlib.Data.String.Basic
 /-
@@ -56,14 +57,6 @@ theorem bare_symbol_form_fails (s : String) (h : isKeyword s = false) (rest : Ob
 example : isKeyword "a" = false := by decide
 
 /-! ## snapshot order -/
-
-/-- The definitions of a world: inheritance sets are duplicate free, transitively closed and
-    irreflexive (i.e. they are the reachability sets of a DAG), names identify definitions. -/
-structure World (ns : List Node) : Prop where
-  nodup : ∀ a ∈ ns, a.inherits.Nodup
-  closed : ∀ a ∈ ns, ∀ b ∈ ns, b.name ∈ a.inherits → b.inherits ⊆ a.inherits
-  irrefl : ∀ a ∈ ns, a.name ∉ a.inherits
-  names : ∀ a ∈ ns, ∀ b ∈ ns, a.name = b.name → a = b
 
 /-- in a world, a definition inherits strictly more than each of its components -/
 theorem World.inherits_lt {ns : List Node} (w : World ns) {a b : Node} (ha : a ∈ ns) (hb : b ∈ ns)
@@ -189,6 +182,27 @@ theorem snapshot_order_enumeration_independent (ns ms : List Node) (w : World ns
   · omega
   · exact le_antisymm h1 h2
 example : sampleWorld.Perm sampleWorld.reverse := (List.reverse_perm _).symm
+
+/-! ## worlds as slip builds them -/
+
+/-- **Every session history yields a world.** Whatever sequence of definitions a session makes
+    (fresh names, components defined earlier — what defflavor / defclass / defpackage demand), the
+    inheritance sets slip flattens from the direct components (`closeHistory`: the component, then
+    everything it inherits, without duplicates) are duplicate free, transitively closed and
+    irreflexive. -/
+theorem history_is_world (hist : List (String × List String)) (h : HistoryOk hist []) :
+    World (closeHistory hist []) :=
+  closeHistory_inv hist [] ⟨by simp, by simp, by simp, by simp⟩ (by simp [Grounded]) (by simpa using h)
+
+/-- Topological soundness for every DAG given by its direct edges in any order of definition. -/
+theorem topo_order_sound_history (hist : List (String × List String)) (h : HistoryOk hist []) :
+    (snapshotOrder (closeHistory hist [])).Pairwise (fun x y => y.name ∉ x.inherits) :=
+  topo_order_sound _ (history_is_world hist h)
+
+example : HistoryOk [("a", []), ("z", []), ("b", ["a"]), ("c", ["a"]), ("d", ["b", "c"])] [] := by
+  simp [HistoryOk]
+example : (snapshotOrder (closeHistory [("a", []), ("z", []), ("b", ["a"]), ("c", ["a"]), ("d", ["b", "c"])] [])).map (·.name)
+    = ["a", "z", "b", "c", "d"] := by decide
 
 /-! ## the comparator of the unrepaired snapshot -/
 
